@@ -50,7 +50,7 @@ CONSTANTS Users,        \* session aliases
           Vias,         \* how a client reaches the node: "d" | "<bridge>:<addr>"
           Creds,        \* OPER credentials tried
           InjectRevs,   \* "same" | "zero" | "plus3"
-          MaxSteps, MaxRej, MaxSnap, MaxRestart, MaxInject, MaxCfg,
+          MaxSteps, MaxRej, MaxSnap, MaxRestart, MaxInject, MaxCfg, MaxBattery,
           FixedF5,      \* TRUE: Marshal keeps WhitelistedOrigins
           RecordHist    \* TRUE: keep the history for behaviour export
 
@@ -65,7 +65,7 @@ Base == [ops |-> {}, svc |-> {}, maxS |-> 0, maxC |-> 0, exp |-> 0,
          capUrl |-> "", capKey |-> "", capLogin |-> FALSE,
          bridges |-> {}, origins |-> {}, banned |-> {}]
 
-ValidBodies   == {"P", "A", "B", "C", "D", "E", "Z"}
+ValidBodies   == {"P", "A", "Ae", "Ab", "B", "C", "Cn", "Ce", "D", "E", "Z"}
 InvalidBodies == {"Xsyn", "Xtype", "Xdur", "Xhex"}
 AllBodies     == ValidBodies \cup InvalidBodies \cup {"R"}   \* "R" = re-post of what GET /config returned
 
@@ -73,16 +73,32 @@ Proj(b) ==
     CASE b = "P" -> [Base EXCEPT !.exp = 30]
       [] b = "A" -> [Base EXCEPT !.exp = 30, !.ops = {"o1"}, !.svc = {"s1"}, !.maxS = 2, !.maxC = 1,
                                  !.bridges = {"b1"}, !.origins = {"g1"}]
+      [] b = "Ae" -> Proj("A")                                  \* A + an empty [Banned] table
+      [] b = "Ab" -> [Proj("A") EXCEPT !.banned = {"a1"}]       \* A + [Banned] listing a1
       [] b = "B" -> [Base EXCEPT !.exp = 60, !.ops = {"o1", "o2"}, !.svc = {"s2"}, !.maxC = 2,
                                  !.capUrl = "u1", !.capKey = "k1",
                                  !.bridges = {"b1"}, !.origins = {"g1", "g2"}, !.banned = {"a2"}]
       [] b = "C" -> [Base EXCEPT !.exp = 60, !.ops = {"o2"}, !.maxS = 1, !.origins = {"g2"}, !.banned = {"a1"}]
+      [] b = "Cn" -> [Proj("C") EXCEPT !.banned = {}]           \* C without any [Banned] table
+      [] b = "Ce" -> [Proj("C") EXCEPT !.banned = {}]           \* C with an empty [Banned] table
       [] b = "D" -> [Base EXCEPT !.exp = 30, !.ops = {"o1"}, !.svc = {"s1", "s2"}, !.capUrl = "u1",
                                  !.bridges = {"b1"}, !.banned = {"l"}]
       [] b = "E" -> [Base EXCEPT !.exp = 45, !.ops = {"o1"}, !.capUrl = "u1", !.capKey = "k1", !.capLogin = TRUE,
                                  !.origins = {"g1"}]
       [] b = "Z" -> Base
       [] OTHER   -> Base
+
+(* The [Banned] table of a body is an explicit dimension: config.FromString *)
+(* starts from a zero Network and makes a fresh empty map when the TOML has *)
+(* none, so "absent", "empty" and "listed" all REPLACE the bans in force     *)
+(* (GLINE'd or listed earlier); only "same" (the re-post of GET /config)     *)
+(* carries them over.  Otherwise-identical bodies: A/Ae/Ab, Cn/Ce/C.         *)
+BannedKind(b) ==
+    CASE b \in {"P", "A", "Cn", "E", "Z"} -> "absent"
+      [] b \in {"Ae", "Ce"}              -> "empty"
+      [] b \in {"Ab", "B", "C", "D"}      -> "listed"
+      [] b = "R"                         -> "same"
+      [] OTHER                           -> "invalid"
 
 (* handlePostConfig: toml.DecodeReader into config.Network; the FSM:        *)
 (* config.FromString -- the same decoder, kept as two predicates.           *)
@@ -270,8 +286,20 @@ RestartV(observe) ==
 
 Restart(observe) == cnt.restart < MaxRestart /\ RestartV(observe)
 
-Cnt0 == [rej |-> 0, snap |-> 0, restart |-> 0, inject |-> 0, cfg |-> 0, g |-> 0]   \* g: revision at the latest successful GLINE
+Cnt0 == [rej |-> 0, snap |-> 0, restart |-> 0, inject |-> 0, cfg |-> 0, bat |-> 0, g |-> 0]   \* g: revision at the latest successful GLINE
 Prelude == [t |-> "config", rev |-> 1, body |-> "P", valid |-> TRUE, proj |-> Proj("P")]
+
+(* Behaviour battery on the live node (harness step cfgbattery): throw-away *)
+(* sessions are created, probe OPER / limits / bans / services and are       *)
+(* deleted again -- a run of log entries with no net effect on the state     *)
+(* (one abstract entry; it moves what a later snapshot folds).               *)
+BatteryV ==
+    /\ Commit([t |-> "probe"])
+    /\ cnt' = [cnt EXCEPT !.bat = @ + 1]
+    /\ UNCHANGED home
+    /\ Record([a |-> "Battery", res |-> "ok"])
+
+Battery == cnt.bat < MaxBattery /\ BatteryV
 
 Init ==
     LET e == [t |-> "config", rev |-> 1, body |-> "P", valid |-> TRUE, proj |-> Proj("P")] IN
@@ -298,8 +326,39 @@ Next ==
        \/ \E u, t \in Users : Gline(u, t)
        \/ \E m \in {"allButLast", "none"}, v \in {"direct", "http"} : Snapshot(m, v)
        \/ \E o \in BOOLEAN : Restart(o)
+       \/ Battery
 
 Spec == Init /\ [][Next]_vars
+
+(* ------------------------------ scenarios ------------------------------- *)
+(* A scenario fixes WHICH action (and, where given, which command/mode and  *)
+(* result) the k-th step is and leaves every argument free; TLC enumerates   *)
+(* all behaviours of that shape (Config_scen_*.cfg, RecordHist = TRUE,       *)
+(* MaxSteps = length).  Pattern "a", "a:x" (x = cmd or mode), "a:x:res",     *)
+(* "a::res".  The shapes are those the random generator rarely reaches and   *)
+(* that must always be replayed: state that an accepted update has to        *)
+(* REPLACE (bans -- listed or GLINE'd --, operators, services, limits,       *)
+(* bridges, origins), looked at on the live node and on both replicas.       *)
+Sub(r) == IF "cmd" \in DOMAIN r THEN r.cmd ELSE IF "mode" \in DOMAIN r THEN r.mode ELSE ""
+Pats(r) == {r.a, r.a \o ":" \o Sub(r), r.a \o ":" \o Sub(r) \o ":" \o r.res, r.a \o "::" \o r.res}
+ScenOK(sc) == n' \in DOMAIN sc /\ (Pats(last') \cap sc[n']) # {}
+
+(* GLINE, then an accepted post (any [Banned] kind), battery on the live     *)
+(* node, snapshot that folds the post, restart with observer replicas        *)
+ScenGlineThenPost ==
+    << {"PostConfig::ok"}, {"Create::ok"}, {"Create::ok"}, {"Msg:login:in"}, {"Msg:login:in"}, {"Msg:oper:ok"},
+       {"Msg:gline:ok"}, {"PostConfig::ok"}, {"Battery"}, {"Snapshot:allButLast"}, {"Restart"} >>
+(* the post first, the GLINE after it *)
+ScenPostThenGline ==
+    << {"PostConfig::ok"}, {"Create::ok"}, {"Create::ok"}, {"Msg:login:in"}, {"Msg:login:in"}, {"Msg:oper:ok"},
+       {"PostConfig::ok"}, {"Msg:gline:ok"}, {"Battery"}, {"Snapshot:allButLast"}, {"Restart"} >>
+(* set X, post a body without X, look *)
+ScenReplace ==
+    << {"PostConfig::ok"}, {"PostConfig::ok"}, {"Battery"}, {"Create"}, {"Snapshot:allButLast"}, {"Restart"} >>
+
+SpecGlineThenPost == Init /\ [][Next /\ ScenOK(ScenGlineThenPost)]_vars
+SpecPostThenGline == Init /\ [][Next /\ ScenOK(ScenPostThenGline)]_vars
+SpecReplace       == Init /\ [][Next /\ ScenOK(ScenReplace)]_vars
 
 (* ----------------------------- properties ------------------------------- *)
 (* On the model the three copies and the FSM expiration are compared in    *)
